@@ -319,19 +319,46 @@ func runC17(c *Ctx) {
 				cur = d
 			}
 			_, freshIsLit := fresh.(*ssa.Alloc)
-			phi, isPhi := old.(*ssa.Phi)
+			// every iteration works on a value atomically loaded from the slot the swap targets: either
+			// a loop-carried variable all of whose definitions are such loads (load before the loop +
+			// reload after a failed swap), or a load made inside the loop before the comparison
+			sameSlot := func(l map[*ssa.Call]bool) bool {
+				for ld := range l {
+					if len(ld.Call.Args) != 1 || ld.Call.Args[0] != cas.Call.Args[0] {
+						return false
+					}
+				}
+				return true
+			}
 			reloads := false
-			if isPhi {
+			if phi, isPhi := old.(*ssa.Phi); isPhi {
 				nLoads := 0
 				for _, e := range phi.Edges {
 					l := map[*ssa.Call]bool{}
 					var o []string
 					atomicLoadsBehind(e, map[ssa.Value]bool{}, l, &o)
-					if len(l) == 1 && len(o) == 0 {
+					if len(l) == 1 && len(o) == 0 && sameSlot(l) {
 						nLoads++
 					}
 				}
 				reloads = nLoads == len(phi.Edges) && len(phi.Edges) == 2
+			} else {
+				l := map[*ssa.Call]bool{}
+				var o []string
+				atomicLoadsBehind(old, map[ssa.Value]bool{}, l, &o)
+				if len(l) == 1 && len(o) == 0 && sameSlot(l) {
+					for ld := range l {
+						// inside the retry loop: the failed-swap edge leads back to the load
+						failTo := cas.Block()
+						inLoop := false
+						for _, sc := range failTo.Succs {
+							if reachableFrom(sc, map[*ssa.BasicBlock]bool{})[ld.Block()] {
+								inLoop = true
+							}
+						}
+						reloads = inLoop && instrDominates(ld, cas)
+					}
+				}
 			}
 			good = cmpPtr != nil && cmpPtr == old && freshIsLit && reloads
 			detail = fmt.Sprintf("compared entry %s, swap expects %s, new entry is a fresh literal=%v, every iteration starts from an atomic (re)load=%v", exprOrNil(cmpPtr), pathExpr(old), freshIsLit, reloads)
